@@ -122,9 +122,9 @@ def check(rep, tier, seed):
             ob("date header value is get_date_time_rfc1123_string() of this request", isinstance(o2, Sym) and o2.tag[0] == "ret" and o2.tag[1].endswith("get_date_time_rfc1123_string"),
                "C05.date-value", "source %r" % (src2,))
         if signed:
-            i3 = inserts[2]
+            i3 = inserts[names.index(AU)]
             ob("authorization header is inserted into the very request that is relayed", same_origin(map_owner(p, i3), sent), "C05.auth-map-owner")
-            ob("authorization insert follows the claims/date inserts", p.index(i3) > p.index(inserts[1]), "C05.auth-order")
+            ob("authorization insert follows every other header write", all(p.index(i3) >= p.index(x) for x in inserts), "C05.auth-order")
     rep.add(Query("witness: relay paths examined", "witness-hit" if n else "witness-missed", "%d" % n, 0, "mirsym"))
     rep.add(Query("witness: a signed relay path exists", "witness-hit" if any(p.relays and p.evs(r"compute_signature$") for p in hm.paths) else "witness-missed", "", 0, "mirsym"))
     rep.bounds["handler"] = "%d complete paths (all), loop-free" % len(hm.paths)
